@@ -142,7 +142,27 @@ func add(a, b Term) Term {
 			}
 		}
 	}
+	// address normal form: (+ base offset) -- offsets accumulate in the second
+	// argument so that triggers of the form (select A (+ base k)) match
+	if strings.HasPrefix(a, "(+ ") {
+		if ps := splitTop(a[3 : len(a)-1]); len(ps) == 2 {
+			return sx("+", ps[0], add(ps[1], b))
+		}
+	}
 	return sx("+", a, b)
+}
+
+// adr builds the address of element off of the array at base.  Addresses are
+// kept in the normal form (adr ROOT offset) with an uninterpreted adr (axiom:
+// adr(b,k) = b+k): solvers flatten nested sums, which breaks E-matching of
+// triggers such as (select H (+ base k)); they leave adr alone.
+func adr(base, off Term) Term {
+	if strings.HasPrefix(base, "(adr ") {
+		if ps := splitTop(base[5 : len(base)-1]); len(ps) == 2 {
+			return sx("adr", ps[0], add(ps[1], off))
+		}
+	}
+	return sx("adr", base, off)
 }
 
 func smallLit(t Term) (int64, bool) {
